@@ -18,7 +18,7 @@ use std::sync::{Arc, Mutex};
 use std::time::{Duration, Instant};
 
 pub const LEVEL: &str = "exploration";
-pub const RULE: &str = "case = scenario on a real connected client (Connector::connect over a socket pair and TLS) whose receive thread is the binary's launch_rdp_thread: 1..12 fast-path bitmap PDUs tagged with serial numbers; a packing of PDUs into TLS records (one per record, several per record, one PDU split over 2-3 records) and of records into socket writes (one write per record, all coalesced, 1..n-byte pieces) with seeded pauses (0 / 100 us / 5 ms); an end mode (disconnect-provider ultimatum, TLS close_notify then close, abrupt close, undecodable PDU then close, connection reset (RST, on the loopback-TCP transport), none) placed before any PDU, between PDUs or inside a PDU; 0..2 concurrent writer threads doing lock + try_write. Oracle: with the server silent and open every PDU already sent arrives on the bitmap channel in serial order within 30 s (a miss is confirmed by a 'poke' PDU: if the missing events then arrive the thread was waiting for further server traffic); after the end event the thread's JoinHandle is finished within 30 s and the shared client is released (a live thread is classified as spinning or blocked by process CPU time); everything sent before the end was forwarded in order. A scenario may contain a reactivation (deactivate-all + demand-active in one TLS record, one record each, or behind a bitmap PDU): the client's finalization must arrive with the server silent, and bitmaps flow again afterwards; one matrix scenario pushes 66 000 bitmaps through the session first. Scenarios may start with 1-2 bitmap PDUs in the TLS record of the font-map (decrypted before the receive thread exists: they must be delivered with the server silent) and may use PDUs larger than one TLS record (64x64 raw rectangles), also cut in half by the end event. The matrix section covers every end mode at every protocol point and every packing (one / several / split PDUs per record) on a plain-TLS and on a CredSSP (PROTOCOL_HYBRID) session, plus scenarios that start with 6 s (thorough: 2, 6, 11, 31, 61 s) of complete server silence; one generated scenario in three runs on a CredSSP session. Scenarios run one at a time. Non-trivial = packing other than one-PDU-per-record-per-write, or an end mode other than none; distinct by hash of the scenario.";
+pub const RULE: &str = "case = scenario on a real connected client (Connector::connect over a socket pair and TLS) whose receive thread is the binary's launch_rdp_thread: 1..12 fast-path bitmap PDUs tagged with serial numbers; a packing of PDUs into TLS records (one per record, several per record, one PDU split over 2-3 records) and of records into socket writes (one write per record, all coalesced, 1..n-byte pieces) with seeded pauses (0 / 100 us / 5 ms); an end mode (disconnect-provider ultimatum, TLS close_notify then close, abrupt close, undecodable PDU then close, connection reset (RST, on the loopback-TCP transport), none) placed before any PDU, between PDUs or inside a PDU; 0..2 concurrent writer threads doing lock + try_write. Oracle: with the server silent and open every PDU already sent arrives on the bitmap channel in serial order within 30 s (a miss is confirmed by a 'poke' PDU: if the missing events then arrive the thread was waiting for further server traffic); after the end event the thread's JoinHandle is finished within 30 s and the shared client is released (a live thread is classified as spinning or blocked by process CPU time); everything sent before the end was forwarded in order. A scenario may contain a reactivation (deactivate-all + demand-active in one TLS record, one record each, or behind a bitmap PDU): the client's finalization must arrive with the server silent, and bitmaps flow again afterwards; one matrix scenario pushes 66 000 bitmaps through the session first. Scenarios may start with 1-2 bitmap PDUs in the TLS record of the font-map (decrypted before the receive thread exists: they must be delivered with the server silent) and may use PDUs larger than one TLS record (64x64 raw rectangles), also cut in half by the end event. A scenario may send 1-5 bitmap PDUs IMMEDIATELY before the end event (in their own TLS records, or in the record that carries the ultimatum / undecodable PDU), so that the end reaches the socket while they are unread: they were received before the end and must all be forwarded, in order, before the thread stops (not with a connection reset, which may discard queued data). The matrix section covers every end mode at every protocol point and every packing (one / several / split PDUs per record) on a plain-TLS and on a CredSSP (PROTOCOL_HYBRID) session, plus scenarios that start with 6 s (thorough: 2, 6, 11, 31, 61 s) of complete server silence; one generated scenario in three runs on a CredSSP session. Scenarios run one at a time. Non-trivial = packing other than one-PDU-per-record-per-write, or an end mode other than none; distinct by hash of the scenario.";
 
 // generous: a loaded machine must not turn into a violation; waiting costs nothing when things work (the collectors return
 // as soon as everything has arrived), only failing scenarios take this long
@@ -92,6 +92,14 @@ pub struct Case {
     /// record each, 3 = both behind a bitmap PDU in one record; the client's confirm-active must arrive with the server silent
     #[serde(default)]
     pub reactivate: u8,
+    /// this many bitmap PDUs are sent IMMEDIATELY before the end event, without waiting for their delivery first: the end
+    /// (ultimatum, close, undecodable PDU) reaches the socket while they are still unread. They were received before the
+    /// end and must be forwarded. Not used with a connection reset (a reset may discard queued data).
+    #[serde(default)]
+    pub tail: u8,
+    /// the tail travels in the same TLS record as the ultimatum / undecodable PDU / cut PDU (one write), else one record each
+    #[serde(default)]
+    pub tail_packed: bool,
 }
 
 /// the transport under the client and under the server's TLS: a unix socket pair or loopback TCP
@@ -677,26 +685,56 @@ pub fn run(c: &Case) -> Outcome {
     // (ii) the end event
     if c.end != EndMode::None {
         pause(c.end_delay);
+        // bitmaps that the end event follows at once
+        let tail_n = if c.end == EndMode::Reset && c.tcp { 0 } else { c.tail as usize };
+        let mut head: Vec<u8> = Vec::new();
+        if tail_n > 0 {
+            out.label(if c.tail_packed { "tail:packed-with-end" } else { "tail:own-records" });
+            for i in 0..tail_n {
+                let p = serial_pdu(6000 + i as u16);
+                if c.tail_packed {
+                    head.extend_from_slice(&p);
+                } else {
+                    let _ = s.tls.write_all(&p);
+                }
+            }
+        }
         if c.end_inside {
             // half a PDU, then the end
             let p = pdu_of(7777, c.big);
-            let _ = s.tls.write_all(&p[..p.len() / 2]);
+            if c.tail_packed && tail_n > 0 {
+                head.extend_from_slice(&p[..p.len() / 2]);
+            } else {
+                let _ = s.tls.write_all(&p[..p.len() / 2]);
+            }
         }
+        let with_head = |tail: &[u8]| -> Vec<u8> { [&head[..], tail].concat() };
         let end_io = match c.end {
             EndMode::DisconnectUltimatum => {
                 // a conforming server closes the connection after its ultimatum
-                let r = s.tls.write_all(&wire::disconnect_provider_ultimatum().bytes);
+                let r = s.tls.write_all(&with_head(&wire::disconnect_provider_ultimatum().bytes));
                 std::thread::sleep(Duration::from_millis(2));
                 let _ = s.tls.shutdown();
                 let _ = s.tls.get_mut().sock.shutdown(std::net::Shutdown::Both);
                 r
             }
             EndMode::CloseNotify => {
+                if !head.is_empty() {
+                    let _ = s.tls.write_all(&head);
+                }
                 let _ = s.tls.shutdown();
                 s.tls.get_mut().sock.shutdown(std::net::Shutdown::Both)
             }
-            EndMode::AbruptClose => s.tls.get_mut().sock.shutdown(std::net::Shutdown::Both),
+            EndMode::AbruptClose => {
+                if !head.is_empty() {
+                    let _ = s.tls.write_all(&head);
+                }
+                s.tls.get_mut().sock.shutdown(std::net::Shutdown::Both)
+            }
             EndMode::Reset => {
+                if !head.is_empty() {
+                    let _ = s.tls.write_all(&head);
+                }
                 // on a unix socket pair there is no reset: it degenerates to an abrupt close
                 if c.tcp {
                     s.tls.get_mut().sock.reset();
@@ -707,7 +745,7 @@ pub fn run(c: &Case) -> Outcome {
             }
             EndMode::UndecodableThenClose => {
                 // a slow-path frame with an MCS opcode the client does not know, then close
-                let r = s.tls.write_all(&[3, 0, 0, 9, 2, 0xF0, 0x80, 0xFC, 0x00]);
+                let r = s.tls.write_all(&with_head(&[3, 0, 0, 9, 2, 0xF0, 0x80, 0xFC, 0x00]));
                 std::thread::sleep(Duration::from_millis(2));
                 let _ = s.tls.get_mut().sock.shutdown(std::net::Shutdown::Both);
                 r
@@ -740,8 +778,16 @@ pub fn run(c: &Case) -> Outcome {
         while let Ok(b) = s.rx.try_recv() {
             extra.push(b.dest_left);
         }
-        if !extra.is_empty() {
-            out.fail("delivery:events-after-end", format!("events {:?} arrived although nothing complete was sent after serial {}", extra, before_end));
+        let want_tail: Vec<u16> = (0..tail_n as u16).map(|i| 6000 + i).collect();
+        if extra != want_tail {
+            if tail_n > 0 {
+                out.fail(
+                    format!("delivery:lost-before-end:{:?}:{}", c.end, if c.tail_packed { "same-record" } else { "own-records" }),
+                    format!("{} bitmap PDUs (serials {:?}) were sent immediately before the end event ({:?}{}); the receive thread forwarded {:?} and stopped", tail_n, want_tail, c.end, if c.end_inside { ", inside a PDU" } else { "" }, extra),
+                );
+            } else {
+                out.fail("delivery:events-after-end", format!("events {:?} arrived although nothing complete was sent after serial {}", extra, before_end));
+            }
         }
         stop_writers.store(true, Ordering::Relaxed);
         for w in writers.drain(..) {
@@ -772,6 +818,8 @@ pub fn decode(s: &mut Src) -> Case {
     let big = s.chance(40);
     let reactivate = if s.chance(48) { 1 + s.below(3) as u8 } else { 0 };
     let silence_s = if s.chance(6) { 1 + s.below(2) as u8 } else { 0 };
+    let tail = if s.chance(90) { 1 + s.below(5) as u8 } else { 0 };
+    let tail_packed = s.bool();
     let records = match s.below(4) {
         0 => RecordPacking::OnePerRecord,
         1 => RecordPacking::SplitAcrossRecords(2 + s.below(2) as u8),
@@ -785,7 +833,7 @@ pub fn decode(s: &mut Src) -> Case {
     };
     let end = s.pick(&[EndMode::None, EndMode::DisconnectUltimatum, EndMode::CloseNotify, EndMode::AbruptClose, EndMode::UndecodableThenClose, EndMode::DisconnectUltimatum, EndMode::Reset]);
     let pdus = 1 + s.below(12) as u8;
-    Case { pdus, records, socket, pause: s.below(3) as u8, end, end_after: s.below(pdus as usize + 1) as u8, end_inside: s.chance(64), writers: s.below(3) as u8, end_delay: s.below(3) as u8, nla, silence_s, tcp, early, big, bulk: 0, reactivate }
+    Case { pdus, records, socket, pause: s.below(3) as u8, end, end_after: s.below(pdus as usize + 1) as u8, end_inside: s.chance(64), writers: s.below(3) as u8, end_delay: s.below(3) as u8, nla, silence_s, tcp, early, big, bulk: 0, reactivate, tail, tail_packed }
 }
 
 fn matrix(thorough: bool) -> Vec<Case> {
@@ -793,18 +841,18 @@ fn matrix(thorough: bool) -> Vec<Case> {
     let mut v = Vec::new();
     for end in [EndMode::DisconnectUltimatum, EndMode::CloseNotify, EndMode::AbruptClose, EndMode::UndecodableThenClose] {
         for (end_after, inside) in [(0u8, false), (2, false), (2, true), (4, false)] {
-            v.push(Case { pdus: 4, records: RecordPacking::OnePerRecord, socket: SocketPacking::PerRecord, pause: 0, end, end_after, end_inside: inside, writers: 0, end_delay: 0, nla: false, silence_s: 0, tcp: false, early: 0, big: false, bulk: 0, reactivate: 0 });
+            v.push(Case { pdus: 4, records: RecordPacking::OnePerRecord, socket: SocketPacking::PerRecord, pause: 0, end, end_after, end_inside: inside, writers: 0, end_delay: 0, nla: false, silence_s: 0, tcp: false, early: 0, big: false, bulk: 0, reactivate: 0, tail: 0, tail_packed: false });
         }
     }
     for records in [RecordPacking::OnePerRecord, RecordPacking::SplitAcrossRecords(2), RecordPacking::SplitAcrossRecords(3)] {
         for socket in [SocketPacking::PerRecord, SocketPacking::Coalesced, SocketPacking::Pieces(1), SocketPacking::Pieces(29)] {
-            v.push(Case { pdus: 5, records, socket, pause: 0, end: EndMode::None, end_after: 0, end_inside: false, writers: 1, end_delay: 0, nla: false, silence_s: 0, tcp: false, early: 0, big: false, bulk: 0, reactivate: 0 });
+            v.push(Case { pdus: 5, records, socket, pause: 0, end: EndMode::None, end_after: 0, end_inside: false, writers: 1, end_delay: 0, nla: false, silence_s: 0, tcp: false, early: 0, big: false, bulk: 0, reactivate: 0, tail: 0, tail_packed: false });
         }
     }
     // several PDUs per TLS record, on a plain-TLS and on a CredSSP session
     for nla in [false, true] {
         for records in [RecordPacking::ManyPerRecord(2), RecordPacking::ManyPerRecord(3), RecordPacking::ManyPerRecord(5), RecordPacking::OnePerRecord, RecordPacking::SplitAcrossRecords(2)] {
-            v.push(Case { pdus: 6, records, socket: SocketPacking::PerRecord, pause: 0, end: if nla { EndMode::DisconnectUltimatum } else { EndMode::None }, end_after: 6, end_inside: false, writers: 0, end_delay: 0, nla, silence_s: 0, tcp: false, early: 0, big: false, bulk: 0, reactivate: 0 });
+            v.push(Case { pdus: 6, records, socket: SocketPacking::PerRecord, pause: 0, end: if nla { EndMode::DisconnectUltimatum } else { EndMode::None }, end_after: 6, end_inside: false, writers: 0, end_delay: 0, nla, silence_s: 0, tcp: false, early: 0, big: false, bulk: 0, reactivate: 0, tail: 0, tail_packed: false });
         }
     }
     // loopback TCP: every end mode including a connection reset, at every protocol point; the packings once
@@ -813,17 +861,17 @@ fn matrix(thorough: bool) -> Vec<Case> {
             if end != EndMode::Reset && (end_after, inside) != (2, false) {
                 continue;
             }
-            v.push(Case { pdus: 4, records: RecordPacking::OnePerRecord, socket: SocketPacking::PerRecord, pause: 0, end, end_after, end_inside: inside, writers: (end_after % 2), end_delay: 0, nla: false, silence_s: 0, tcp: true, early: 0, big: false, bulk: 0, reactivate: 0 });
+            v.push(Case { pdus: 4, records: RecordPacking::OnePerRecord, socket: SocketPacking::PerRecord, pause: 0, end, end_after, end_inside: inside, writers: (end_after % 2), end_delay: 0, nla: false, silence_s: 0, tcp: true, early: 0, big: false, bulk: 0, reactivate: 0, tail: 0, tail_packed: false });
         }
     }
     for (records, socket) in [(RecordPacking::ManyPerRecord(3), SocketPacking::PerRecord), (RecordPacking::SplitAcrossRecords(2), SocketPacking::Pieces(7)), (RecordPacking::OnePerRecord, SocketPacking::Coalesced)] {
-        v.push(Case { pdus: 6, records, socket, pause: 0, end: EndMode::Reset, end_after: 6, end_inside: false, writers: 0, end_delay: 1, nla: true, silence_s: 0, tcp: true, early: 0, big: false, bulk: 0, reactivate: 0 });
+        v.push(Case { pdus: 6, records, socket, pause: 0, end: EndMode::Reset, end_after: 6, end_inside: false, writers: 0, end_delay: 1, nla: true, silence_s: 0, tcp: true, early: 0, big: false, bulk: 0, reactivate: 0, tail: 0, tail_packed: false });
     }
     // PDUs that arrive in the TLS record of the font-map (before the receive thread exists), then silence or more traffic
     for early in [1u8, 2] {
         for (pdus, end) in [(0u8, EndMode::None), (3, EndMode::DisconnectUltimatum)] {
             for nla in [false, true] {
-                v.push(Case { pdus, records: RecordPacking::OnePerRecord, socket: SocketPacking::PerRecord, pause: 0, end, end_after: pdus, end_inside: false, writers: 0, end_delay: 0, nla, silence_s: 0, tcp: false, early, big: false, bulk: 0, reactivate: 0 });
+                v.push(Case { pdus, records: RecordPacking::OnePerRecord, socket: SocketPacking::PerRecord, pause: 0, end, end_after: pdus, end_inside: false, writers: 0, end_delay: 0, nla, silence_s: 0, tcp: false, early, big: false, bulk: 0, reactivate: 0, tail: 0, tail_packed: false });
             }
         }
     }
@@ -831,7 +879,7 @@ fn matrix(thorough: bool) -> Vec<Case> {
     for end in [EndMode::None, EndMode::CloseNotify, EndMode::AbruptClose, EndMode::DisconnectUltimatum, EndMode::UndecodableThenClose] {
         for inside in [false, true] {
             for tcp in [false, true] {
-                v.push(Case { pdus: 3, records: RecordPacking::OnePerRecord, socket: if tcp { SocketPacking::Pieces(1000) } else { SocketPacking::PerRecord }, pause: 0, end, end_after: 2, end_inside: inside && end != EndMode::None, writers: 0, end_delay: 0, nla: false, silence_s: 0, tcp, early: 0, big: true, bulk: 0, reactivate: 0 });
+                v.push(Case { pdus: 3, records: RecordPacking::OnePerRecord, socket: if tcp { SocketPacking::Pieces(1000) } else { SocketPacking::PerRecord }, pause: 0, end, end_after: 2, end_inside: inside && end != EndMode::None, writers: 0, end_delay: 0, nla: false, silence_s: 0, tcp, early: 0, big: true, bulk: 0, reactivate: 0, tail: 0, tail_packed: false });
             }
         }
     }
@@ -839,17 +887,26 @@ fn matrix(thorough: bool) -> Vec<Case> {
     for reactivate in 1..=3u8 {
         for nla in [false, true] {
             for end in [EndMode::None, EndMode::DisconnectUltimatum] {
-                v.push(Case { pdus: 2, records: RecordPacking::OnePerRecord, socket: SocketPacking::PerRecord, pause: 0, end, end_after: 2, end_inside: false, writers: 0, end_delay: 0, nla, silence_s: 0, tcp: false, early: 0, big: false, bulk: 0, reactivate });
+                v.push(Case { pdus: 2, records: RecordPacking::OnePerRecord, socket: SocketPacking::PerRecord, pause: 0, end, end_after: 2, end_inside: false, writers: 0, end_delay: 0, nla, silence_s: 0, tcp: false, early: 0, big: false, bulk: 0, reactivate, tail: 0, tail_packed: false });
+            }
+        }
+    }
+    // bitmaps that the end event follows at once (unread when the end reaches the socket), in their own TLS records and in the
+    // record of the ultimatum / undecodable PDU, on both transports and both kinds of session
+    for end in [EndMode::DisconnectUltimatum, EndMode::CloseNotify, EndMode::AbruptClose, EndMode::UndecodableThenClose] {
+        for tail_packed in [false, true] {
+            for (tcp, nla, inside) in [(false, false, false), (true, false, false), (false, true, false), (false, false, true)] {
+                v.push(Case { pdus: 2, records: RecordPacking::OnePerRecord, socket: SocketPacking::PerRecord, pause: 0, end, end_after: 2, end_inside: inside, writers: 0, end_delay: 0, nla, silence_s: 0, tcp, early: 0, big: false, bulk: 0, reactivate: 0, tail: 3, tail_packed });
             }
         }
     }
     // a long session: more bitmaps than a 16-bit counter holds, then the usual end
-    v.push(Case { pdus: 2, records: RecordPacking::OnePerRecord, socket: SocketPacking::PerRecord, pause: 0, end: EndMode::DisconnectUltimatum, end_after: 2, end_inside: false, writers: 0, end_delay: 0, nla: false, silence_s: 0, tcp: false, early: 0, big: false, bulk: 66_000, reactivate: 0 });
+    v.push(Case { pdus: 2, records: RecordPacking::OnePerRecord, socket: SocketPacking::PerRecord, pause: 0, end: EndMode::DisconnectUltimatum, end_after: 2, end_inside: false, writers: 0, end_delay: 0, nla: false, silence_s: 0, tcp: false, early: 0, big: false, bulk: 66_000, reactivate: 0, tail: 0, tail_packed: false });
     // long server silence first (longer than common wait timeouts), then traffic and an end event
     let silences: &[u8] = if thorough { &[2, 6, 11, 31, 61] } else { &[6] };
     for &silence_s in silences {
-        v.push(Case { pdus: 3, records: RecordPacking::OnePerRecord, socket: SocketPacking::PerRecord, pause: 0, end: EndMode::DisconnectUltimatum, end_after: 3, end_inside: false, writers: 0, end_delay: 0, nla: false, silence_s, tcp: false, early: 0, big: false, bulk: 0, reactivate: 0 });
-        v.push(Case { pdus: 2, records: RecordPacking::ManyPerRecord(2), socket: SocketPacking::PerRecord, pause: 0, end: EndMode::AbruptClose, end_after: 0, end_inside: false, writers: 1, end_delay: 0, nla: false, silence_s, tcp: false, early: 0, big: false, bulk: 0, reactivate: 0 });
+        v.push(Case { pdus: 3, records: RecordPacking::OnePerRecord, socket: SocketPacking::PerRecord, pause: 0, end: EndMode::DisconnectUltimatum, end_after: 3, end_inside: false, writers: 0, end_delay: 0, nla: false, silence_s, tcp: false, early: 0, big: false, bulk: 0, reactivate: 0, tail: 0, tail_packed: false });
+        v.push(Case { pdus: 2, records: RecordPacking::ManyPerRecord(2), socket: SocketPacking::PerRecord, pause: 0, end: EndMode::AbruptClose, end_after: 0, end_inside: false, writers: 1, end_delay: 0, nla: false, silence_s, tcp: false, early: 0, big: false, bulk: 0, reactivate: 0, tail: 0, tail_packed: false });
     }
     v
 }
@@ -868,4 +925,6 @@ pub fn check(rep: &Report) {
     rep.require("scenarios", "early-pdus", 5);
     rep.require("scenarios", "big-pdus", 5);
     rep.require("scenarios", "reactivation", 5);
+    rep.require("scenarios", "tail:packed-with-end", 5);
+    rep.require("scenarios", "tail:own-records", 5);
 }
